@@ -492,6 +492,24 @@ func (d *drv) repeat(doc []byte, hi int, base *obs, n int) {
 
 // ---- caller-provided tree ----
 
+// failTree: a caller-provided tree whose k-th Add fails.
+type failTree struct {
+	inner merklize.MerkleTree
+	k, n  int
+}
+
+func (t *failTree) Add(ctx context.Context, k, v *big.Int) error {
+	t.n++
+	if t.n == t.k {
+		return fmt.Errorf("storage failure on write %d", t.n)
+	}
+	return t.inner.Add(ctx, k, v)
+}
+func (t *failTree) GenerateProof(ctx context.Context, k *big.Int) (*merkletree.Proof, error) {
+	return t.inner.GenerateProof(ctx, k)
+}
+func (t *failTree) Root() *merkletree.Hash { return t.inner.Root() }
+
 func newTree() (*merkletree.MerkleTree, error) {
 	return merkletree.NewMerkleTree(context.Background(), memory.NewMemoryStorage(), 40)
 }
@@ -514,6 +532,36 @@ func (d *drv) givenTree(doc []byte, hi int, base *obs) {
 		d.fail(fmt.Sprintf("the caller-provided tree was not the tree that was filled: its root is %s, the merklizer's %s", r, base.Root),
 			failInput{Kind: "tree", Class: "c03-given-tree-ignored", Doc: string(doc), Hasher: hi})
 		return
+	}
+	// a provided tree whose Add fails on the k-th call: the error must surface (never a
+	// merklizer over a partially filled tree)
+	if n := len(base.Entries); n > 0 {
+		ks := []int{1, n, 1 + d.rng.Intn(n)}
+		if d.cfg.Thorough() {
+			ks = nil
+			for k := 1; k <= n && k <= 12; k++ {
+				ks = append(ks, k)
+			}
+		}
+		for _, k := range ks {
+			inner, err := newTree()
+			if err != nil {
+				break
+			}
+			ft := &failTree{inner: merklize.MerkleTreeSQLAdapter(inner), k: k}
+			mzf, mo := mzrun.Merklize(doc, d.opts(hi, merklize.WithMerkleTree(ft))...)
+			d.rep.Evaluations++
+			d.rep.Count("failing-add:" + mo.Class)
+			if mo.Class == "ok" {
+				r := ""
+				if mzf != nil {
+					r = mzf.Root().BigInt().String()
+				}
+				d.fail(fmt.Sprintf("the provided tree's Add failed on call %d of %d, MerklizeJSONLD returned no error and root %s (default tree: %s)", k, n, r, base.Root),
+					failInput{Kind: "tree", Class: "c03-add-error-swallowed", Doc: string(doc), Hasher: hi, Repeats: k})
+				return
+			}
+		}
 	}
 	// a provided empty tree of another depth: same root (Properties/C03.v C03_tree_depth)
 	if deep, err := merkletree.NewMerkleTree(context.Background(), memory.NewMemoryStorage(), 64); err == nil {
@@ -816,7 +864,7 @@ func (d *drv) nearMisses(doc *docgen.Doc, hi int, base *obs, lf docgen.Leaf) {
 func boundaryInts(dt string) []*big.Int {
 	pow := func(n uint) *big.Int { return new(big.Int).Lsh(big.NewInt(1), n) }
 	add := func(z *big.Int, d int64) *big.Int { return new(big.Int).Add(z, big.NewInt(d)) }
-	pos := []*big.Int{big.NewInt(1), big.NewInt(2), pow(31), add(pow(31), -1), pow(32), add(pow(32), -1), pow(53), add(pow(53), 1),
+	pos := []*big.Int{big.NewInt(1), big.NewInt(2), big.NewInt(3), big.NewInt(5), big.NewInt(7), big.NewInt(15), pow(31), add(pow(31), -1), pow(32), add(pow(32), -1), pow(53), add(pow(53), 1),
 		add(pow(63), -1), pow(63), add(pow(63), 1), add(pow(64), -1), pow(64), add(pow(64), 1), pow(65)}
 	var out []*big.Int
 	neg := dt != xsd+"positiveInteger" && dt != xsd+"nonNegativeInteger"
@@ -910,6 +958,13 @@ func (d *drv) boundarySweep(doc *docgen.Doc, hi int, lf docgen.Leaf) {
 	roots := map[string]string{} // root -> value
 	docs := map[string]string{}
 	nTree := 0
+	if !doc.Features["int-doc"] && !d.cfg.Thorough() && len(vals) > 12 {
+		// quick tier: a random third of the machine-word boundaries on generated documents
+		// (the int documents sweep all of them)
+		d.rng.Shuffle(len(vals), func(i, j int) { vals[i], vals[j] = vals[j], vals[i] })
+		vals = vals[:12]
+	}
+	defer d.fractions(doc, hi, lf, roots, docs)
 	for _, z := range vals {
 		obj, err := parseDoc(doc.Bytes)
 		if err != nil {
@@ -1131,6 +1186,42 @@ func (d *drv) timeSweep(doc *docgen.Doc, hi int, lf docgen.Leaf) {
 			nTree++
 			d.treeCase(ds, hi, failInput{Kind: "doc-dataset", Doc: string(v), Hasher: hi, Note: "boundary-time"}, o.Root, 1)
 		}
+	}
+}
+
+// fractions: NON-integral values in an integer-typed field (strings "2.5", "-0.5", "0.25",
+// "7/2", "1e-1", ... and the JSON number 1.5): must be rejected, and must never share a
+// root with an integer value of the same field.
+func (d *drv) fractions(doc *docgen.Doc, hi int, lf docgen.Leaf, roots, docs map[string]string) {
+	fr := []any{"1.5", "2.5", "-0.5", "0.5", "0.25", "7/2", "-3/2", "1e-1", "15e-1", "2.000001", "-1.5", json.RawMessage("1.5"), json.RawMessage("-2.5"), json.RawMessage("0.5")}
+	if !d.cfg.Thorough() && !doc.Features["int-doc"] {
+		d.rng.Shuffle(len(fr), func(i, j int) { fr[i], fr[j] = fr[j], fr[i] })
+		fr = fr[:4]
+	}
+	for _, f := range fr {
+		obj, err := parseDoc(doc.Bytes)
+		if err != nil {
+			return
+		}
+		sl, sib, ok := nav(obj, lf.DocPath)
+		if !ok || sib != 1 {
+			return
+		}
+		sl.set(f)
+		v, _ := json.Marshal(obj)
+		o, _, _ := d.observe(v, hi)
+		d.rep.Count("fraction:" + o.Class)
+		if o.Class != "ok" {
+			continue
+		}
+		what := fmt.Sprintf("the %s field at %v accepts the non-integral value %s", lf.Fact.Datatype, lf.DocPath, jsonOf(f))
+		if prev, dup := roots[o.Root]; dup {
+			d.fail(what+fmt.Sprintf(" and gives the same root as the integer %s", prev),
+				failInput{Kind: "pair-diff", Class: "c03-value-unbound", Doc: docs[prev], Other: string(v), Hasher: hi, Leaf: &lf, Siblings: 1, Note: "fraction " + jsonOf(f) + " vs " + prev})
+			return
+		}
+		d.fail(what, failInput{Kind: "range", Class: "c03-fraction-accepted", Doc: string(v), Hasher: hi, Leaf: &lf, Siblings: 1, Note: "out"})
+		return
 	}
 }
 
@@ -1475,6 +1566,39 @@ func (d *drv) labelsCase(ds *ld.RDFDataset, hi int, ref string) {
 		input: failInput{Kind: "dataset", Hasher: hi, Dataset: dumpDS(rds), Note: "labels-renamed"}})
 }
 
+// dupPath: two nodes at the top level (@graph) stating the same property: both entries
+// have the path [p], the second insertion fails.  Changing either value must change the
+// outcome: an error in both documents, or different roots — never the same root.
+func (d *drv) dupPath(hi int) {
+	V := docgen.Vocab
+	names := []string{"Bob", "Barbara", "Alice", "Carol", "Dave"}
+	d.rng.Shuffle(len(names), func(i, j int) { names[i], names[j] = names[j], names[i] })
+	mk := func(a, b string) []byte {
+		nodes := []any{map[string]any{"@id": "urn:dup:a", V + "name": a}, map[string]any{"@id": "urn:dup:b", V + "name": b}}
+		if d.rng.Intn(2) == 0 {
+			nodes[0], nodes[1] = nodes[1], nodes[0]
+		}
+		v, _ := json.Marshal(map[string]any{"@graph": nodes})
+		return v
+	}
+	docA := mk(names[0], names[1])
+	oa, _, _ := d.observe(docA, hi)
+	d.rep.Count("dup-path:" + oa.Class)
+	for _, docB := range [][]byte{mk(names[0], names[2]), mk(names[3], names[1])} {
+		ob, _, _ := d.observe(docB, hi)
+		if oa.Class == "ok" && ob.Class == "ok" && oa.Root == ob.Root {
+			d.fail("two documents with two top-level nodes stating the same property, differing in one value, give the same root "+oa.Root,
+				failInput{Kind: "pair-diff", Class: "c03-value-unbound", Doc: string(docA), Other: string(docB), Hasher: hi, Note: "duplicate-path"})
+			return
+		}
+		if oa.Class != ob.Class {
+			d.fail(fmt.Sprintf("duplicate-path documents differing in one value: outcome %s vs %s", oa.Class, ob.Class),
+				failInput{Kind: "pair-diff", Class: "c03-duplicate-path-class", Doc: string(docA), Other: string(docB), Hasher: hi, Note: "duplicate-path"})
+			return
+		}
+	}
+}
+
 // witness replays RDF.Order.bad_ds (the refutation witness of "literally the same outcome
 // for every map order", Properties/C03.v C03_graph_order_same_error_refuted) on the real
 // code: graph "" with one quad, @default with a blank-node predicate.  Expected: an error in
@@ -1767,6 +1891,9 @@ func (d *drv) replay(path string) error {
 		if a.Class == "ok" && b.Class == "ok" && a.Root == b.Root {
 			d.fail("a different value does not change the root", in)
 		}
+		if in.Class == "c03-duplicate-path-class" && a.Class != b.Class {
+			d.fail("outcome classes differ: "+a.Class+" vs "+b.Class, in)
+		}
 	case "repeat":
 		a, _, _ := d.observe([]byte(in.Doc), in.Hasher)
 		show("document", a)
@@ -1891,6 +2018,10 @@ func Run(cfg *common.Config) (*common.Report, error) {
 		})
 	}
 	add(func(t *drv) { t.witness() })
+	for i := 0; i < cfg.Pick(4, 40); i++ {
+		hi := i % 2
+		add(func(t *drv) { t.dupPath(hi) })
+	}
 	const workers = 8
 	var wg sync.WaitGroup
 	next := make(chan int)
